@@ -5,6 +5,7 @@ import (
 	"reflect"
 	"strings"
 	"unicode"
+	"unicode/utf8"
 )
 
 // String returns the EBNF for the grammar.
@@ -30,7 +31,9 @@ func productionName(typ reflect.Type) string {
 		}
 		name = out.String()
 	}
-	return strings.ToUpper(name[:1]) + name[1:]
+	// Upper-case the first letter, which need not be a single byte.
+	first, size := utf8.DecodeRuneInString(name)
+	return string(unicode.ToUpper(first)) + name[size:]
 }
 
 type ebnfp struct {
